@@ -279,6 +279,11 @@ pub fn run(cfg: &Cfg) -> Report {
         continue;
       }
     };
+    // a decision whose evaluation always panics (hook `verif_add_failing_decision`, cfg dmntk_verif): a failed
+    // call must leave no lock poisoned, whatever lock the evaluation path holds while it runs
+    me.verif_add_failing_decision("Boom");
+    let mut invocables = invocables;
+    invocables.push(Invocable { name: "Boom".into(), kind: "panicking", locks: vec![0, 1] });
     // the table of calls with their sequential results
     let mut calls: Vec<Call> = vec![];
     let n_calls = 40 + rng.below(40) as usize;
@@ -286,6 +291,9 @@ pub fn run(cfg: &Cfg) -> Report {
     for ci in 0..n_calls {
       let mut invocable = rng.below(invocables.len() as u64) as usize;
       let mut input_text = gen_input(&mut rng);
+      if ci % 10 == 7 {
+        invocable = invocables.len() - 1;
+      }
       if let (true, Some(g)) = (ci % 10 == 3, gap1) {
         invocable = g;
         input_text = format!("{{n: 1, s: \"a\", d: \"{}\", p: 1, q: 1}}", rng.pick(&["2020-03-29", "2021-03-28", "2019-03-31"]));
